@@ -287,6 +287,36 @@ func Run(r *ev.Run) {
 		evalBuilt(r, keys, l, b, fmt.Sprintf(":exact%d", target))
 		extra++
 	}
+	// supported_versions lists as real clients send them: an RFC 8701 GREASE value FIRST (BoringSSL/Chrome), in the middle, last;
+	// TLS 1.3 after TLS 1.2 - in the outer hello, in the inner hello, and in both through a reference
+	for vi, vers := range [][]uint16{{0x0a0a, 0x0304, 0x0303}, {0x0304, 0x7a7a, 0x0303}, {0x0304, 0xfafa}, {0x0303, 0x0304}, {0xeaea, 0x0304}} {
+		for where := 0; where < 3; where++ {
+			l := layout{AEAD: 1, MarkerAt: 1, ECHInAt: 0, SID: 32}
+			if where == 2 {
+				l.Refs = []int{0, 2} // supported_versions is shared(0): the inner hello takes it from the outer one
+			}
+			s := buildLayout(key, l)
+			sv := tlsref.SupportedVersions(vers...)
+			if where == 0 || where == 2 {
+				s.Outer = s.Outer.Clone()
+				for i, e := range s.Outer.Exts {
+					if e.Type == tlsref.ExtSupportedVersions {
+						s.Outer.Exts[i] = sv
+					}
+				}
+			}
+			if where == 1 {
+				s.EncInner = slices.Clone(s.EncInner)
+				for i, e := range s.EncInner {
+					if e.Type == tlsref.ExtSupportedVersions {
+						s.EncInner[i] = sv
+					}
+				}
+			}
+			evalBuilt(r, keys, l, s.Build(), fmt.Sprintf(":version-list%d-%s", vi, []string{"outer", "inner", "both"}[where]))
+			extra++
+		}
+	}
 	r.Set("boundary_and_optional_extension_cases", extra)
 	r.Set("states", len(cases))
 	r.Set("traces_validated_against_impl", len(cases))
